@@ -18,7 +18,10 @@ KWalk(D, s, steps, i) ==
     IF i > Len(steps) THEN Ok
     ELSE LET e == steps[i]
              r == Act(D, s, e.c)
-             s2 == IF e.ok THEN r.st ELSE s
+             s1 == IF e.ok THEN r.st ELSE s
+             \* a private key object may cache what it likes (also during a call that ends in a refusal): what it holds
+             \* besides the scalar is taken from the observation, not prescribed
+             s2 == IF s1.private /\ s1.kind \in KeyKinds THEN [s1 EXCEPT !.cache = ToSet(e.hs) \ ScalarEnc] ELSE s1
          IN IF (e.c \notin CallsOf(s) /\ e.c # "encrypt") \/ e.a \notin ArgSpace(e.c)
             THEN [v |-> "call-not-in-specification", at |-> i, exp |-> <<>>]
             ELSE IF e.ok /\ r.view = "public" /\ (ToSet(e.os) # r.out \/ Len(e.oo) # 0)
